@@ -561,6 +561,12 @@ inv_run([(5, True, [(SEC, "S1", None, None, {}), (SEC, "S2", None, b"\x09", {})]
 inv_run([(0, True, [(PUB, "KE", EC[0], None, {}), (PRIV, "KE", EC[0], None, {}), (PUB, "KF", EC[1], None, {"ec_wrapped": False}), (PRIV, "KF", EC[1], None, {})])],
         {"e": ceremony.ksk_def(EC[0]), "f": ceremony.ksk_def(EC[1])}, "inventory-ec")
 inv_run([(0, True, [(PUB, "KE", EC[0], None, {}), (PRIV, "KE", EC[0], None, {})])], {"e": ceremony.ksk_def(EC[1], label="KE")}, "inventory-ec")
+# key tags at the ends of their range: a token key whose tag is 65535, configured with that tag (and the key's DS), and with another tag
+K65535 = ksrxml.mk_key(P.ec_with_tag(13, 257, 65535), alg=13, flags=257, ident="KMAXTAG")
+P.save()
+inv_run([(0, True, [(PUB, "KMAXTAG", K65535, None, {}), (PRIV, "KMAXTAG", K65535, None, {})])], {"m": ceremony.ksk_def(K65535)}, "inventory-keytag-65535")
+inv_run([(0, True, [(PUB, "KMAXTAG", K65535, None, {}), (PRIV, "KMAXTAG", K65535, None, {})])], {"m": ceremony.ksk_def(K65535, key_tag=65534)}, "inventory-keytag-65535")
+inv_run([(0, True, [(PUB, "KMAXTAG", K65535, None, {}), (PRIV, "KMAXTAG", K65535, None, {})])], good, "inventory-keytag-65535")
 # a KSK whose key tag sum carries out of 16 bits after the fold (RFC 4034 App. B discards that carry), configured with its true tag and DS - and with the tag one higher
 KCARRY = ksrxml.mk_key(P.ec_tag_carry(13, 257), alg=13, flags=257, ident="KCARRY")
 P.save()
